@@ -88,6 +88,44 @@ theorem dump_value_safe (v out : List Char) (h : dumpValue v = .ok out) :
       obtain ⟨n, ⟨b, _, rfl⟩, rfl⟩ := ht
       exact token_table _ b.toNat_lt
 
+/-- a character that cannot end the pair or separate attributes: printable ASCII other than `;` `,` -/
+def inertChar (c : Char) : Bool := 0x20 ≤ c.toNat && c.toNat ≤ 0x7E && c != ';' && c != ','
+
+theorem inert_table : ∀ n, n < 256 → (escChars n).all inertChar = true := by decide +kernel
+
+theorem octet_inert : ∀ n, n < 256 → cookieOctet n = true → inertChar (Char.ofNat n) = true := by
+  decide +kernel
+
+/-- Whatever the value, the emitted text is printable ASCII and contains neither `;` nor `,`:
+splitting the `Set-Cookie` header at `;` therefore always yields the pair first and then exactly the
+attributes `dump_cookie` appended (`dumpCookie` joins them in the fixed order Domain, Expires,
+Max-Age, Secure, HttpOnly, Path, SameSite, Partitioned). -/
+theorem dump_value_inert (v out : List Char) (h : dumpValue v = .ok out) :
+    out.all inertChar = true := by
+  by_cases hq : v.all noQuoteChar = true
+  · have : dumpValue v = .ok v := by simp [dumpValue, hq]
+    rw [this] at h
+    obtain rfl := Except.ok.inj h
+    apply List.all_eq_true.mpr
+    intro c hc
+    have hf := noQuoteChar_facts c (List.all_eq_true.mp hq c hc)
+    have hlt : c.toNat < 256 := by
+      have := hf.1
+      simp only [cookieOctet, Bool.or_eq_true, beq_iff_eq, Bool.and_eq_true, decide_eq_true_eq] at this
+      omega
+    have := octet_inert c.toNat hlt hf.1
+    simpa using this
+  · rw [dumpValue_quoted v (by simpa using hq)] at h
+    obtain rfl := Except.ok.inj h
+    simp only [List.cons_append, List.all_cons, List.all_append, List.all_nil, Bool.and_true,
+      List.all_flatMap, Bool.and_eq_true]
+    refine ⟨by decide, ?_, by decide⟩
+    apply List.all_eq_true.mpr
+    intro n hn
+    simp only [List.mem_map] at hn
+    obtain ⟨b, _, rfl⟩ := hn
+    exact inert_table _ b.toNat_lt
+
 example : (match dumpValue "a;b\"c é".toList with
     | .ok r => r == "\"a\\073b\\\"c \\303\\251\"".toList | .error _ => false) = true := by decide +kernel
 
